@@ -1042,6 +1042,18 @@ static idx_t dtw_wps_shift(DTWWps* p, idx_t ri) {
     return p->ri3 - p->ri2;
 }
 
+/*!
+Value of cell (r, c), 1 <= r <= l1, 0 <= c <= l2, of the matrix stored in the compact layout
+(infinity if the cell is not stored).
+*/
+static seq_t dtw_wps_get(DTWWps* p, seq_t *wps, idx_t r, idx_t c) {
+    idx_t wpsi = c - dtw_wps_shift(p, r - 1);
+    if (wpsi < 0 || wpsi >= p->width) {
+        return INFINITY;
+    }
+    return wps[r*p->width + wpsi];
+}
+
 
 /*!
 Compute all warping paths between two series.
@@ -3322,6 +3334,33 @@ idx_t dtw_best_path(seq_t *wps, idx_t *i1, idx_t *i2, idx_t l1, idx_t l2,
                     
                     DTWSettings *settings) {
     DTWWps p = dtw_wps_parts(l1, l2, settings);
+
+    if (l1 > 0 && l2 > 0 && (settings->psi_1e != 0 || settings->psi_2e != 0) &&
+            dtw_wps_get(&p, wps, l1, l2) == -1) {
+        // The end of the path is relaxed (psi): start from the cell before the chain of -1 marks
+        // in the last column or the last row.
+        idx_t rs = l1;
+        while (rs > 0 && dtw_wps_get(&p, wps, rs, l2) == -1) {
+            rs--;
+        }
+        idx_t cs = l2;
+        while (cs > 0 && dtw_wps_get(&p, wps, l1, cs) == -1) {
+            cs--;
+        }
+        if (l1 - rs > 1 || settings->psi_2e == 0) {
+            cs = l2;
+        } else if (l2 - cs > 1 || settings->psi_1e == 0) {
+            rs = l1;
+        } else if (dtw_wps_get(&p, wps, rs, l2) < dtw_wps_get(&p, wps, l1, cs)) {
+            // Only the corner is marked: the smallest of its two neighbours was chosen (last row on ties)
+            cs = l2;
+        } else {
+            rs = l1;
+        }
+        if (rs > 0 && cs > 0) {
+            return dtw_best_path_customstart(wps, i1, i2, l1, l2, rs, cs, settings);
+        }
+    }
 
     idx_t i = 0;
     idx_t rip = l1;
